@@ -96,6 +96,9 @@ func c01Judge(c *fw.Ctx, sc relayScenario, res *relayResult, rec *consumerRec, p
 		c.Inconclusive("consumer %s: %s", kind, rec.Note)
 		return
 	}
+	if rec.JoinK == -2 || rec.Ts != nil {
+		return // parse-only record / TS consumer (judged elsewhere)
+	}
 	for n, it := range rec.Items {
 		if it.Idx < 0 {
 			bad("unknown-message", "item %d (type %d ts %d len %d) matches no published message: payload altered or foreign", n, it.Type, it.Ts, it.Len)
